@@ -60,7 +60,7 @@ CHECKS = {
    text="Each setoption is followed by isready -> readyok, a read-back of the option, and go depth 3 -> exactly one legal bestmove; a dead or hung search thread or a blocked command loop is a violation.",
    design="5/C13"),
  "C14": dict(
-   technique="exhaustive enumeration of a dense clock grid (about 1 M tuples quick) through TimeStrategy::new, and of a coarser grid plus all 720 field orders of one go line through the real go command (limits read through hook H5); all 585 option histories of length <= 3 before a clock-limited go (OPTION-ORDER); virtual-clock search runs for the second clause, plus a labelled wall-clock MEASUREMENT on the optimised binary (best of five, calibrated; not an enumeration)",
+   technique="exhaustive enumeration of a dense clock grid (about 1 M tuples quick) through TimeStrategy::new, and of a coarser grid plus all 720 field orders of one go line through the real go command (limits read through hook H5); all 585 option histories of length <= 3 before a clock-limited go (OPTION-ORDER); virtual-clock search runs for the second clause, plus a labelled wall-clock MEASUREMENT on the optimised binary (best of up to eight, calibrated; not an enumeration)",
    text="Every (remaining, increment, movestogo, overhead, side, own-clock-only/both) tuple of the grid: hard <= (remaining-overhead)/2 with 1 ms tolerance, soft <= hard; movetime used as given for 5000+ values. The clause about returning before the clock runs out is explored under a virtual clock (time = nodes x 1 microsecond) on a coarser grid; real wall-clock time cannot be enumerated (stated): E7-WALL-CLOCK measures six scenarios (plain, first search after ucinewgame / after a resize on the largest table) with 200-250 ms on the clock and is skipped when the sandbox cannot time a 100 ms search.",
    design="5/C14"),
  "C15": dict(
